@@ -9,7 +9,7 @@ EXTENDS Naturals, Sequences, FiniteSets, TLC, Json
 CONSTANTS Lang, MaxLen, Mode      \* Lang: "path" | "pointer" | "relptr"; Mode: "soup" | "mutants"
 
 \* TLC keeps strings as bytes when it spills states to disk, so lexemes outside ASCII are given by name
-\* ("EACUTE", "SUPER2") and spelled out by the recorder; "HUGE" stands for a run of 4400 nines (more digits
+\* ("EACUTE", "SUPER2", "ARDIGIT1" - ARABIC-INDIC DIGIT ONE, a digit to the host's \d and int()) and spelled out by the recorder; "HUGE" stands for a run of 4400 nines (more digits
 \* than the host's integer conversion accepts), which no specification string could usefully carry; "LIMIT4300" stands for a run of exactly 4300 nines
 \* (the most digits the host converts: one more digit after an addition and it cannot be printed); "SQRUN" /
 \* "DQRUN" / "RERUN" stand for an opening ' / " / slash followed by 70 backslashes (an unterminated literal with a long escape run)
@@ -20,7 +20,7 @@ L(str) == str
 PathLex == << "$", "@", ".", "..", "[", "]", "(", ")", "?", "*", ",", ":", "'a'", "\"b\"", "'", "\"", "a", "1", "-1", "01", "1e2", "1.5", "1e-1",
               "9007199254740993", "-", "+", "==", "!=", "<", "<>", "&&", "||", "!", " in ", " contains ", "=~", "/a/", "/(/", "/a", "/a/i", "true", "null",
               "length(", "count(", "match(", "search(", "value(", "nosuch(", "is(", "typeof(", "#", "_", "~", "^", " | ", " & ", "undefined", " ", "\\", "'\\u00e9'", "'\\ud800'", "EACUTE", "0", "and", "not ",
-              "1e400", "1.0e16", "1.5e1", "/a{99999999999999999999}/", "'a{99999999999999999999}'", "aaaaaaaaaaaaaaaaaaaaaaaaaaaaaaaaaaaaaaaa", "HUGE", "SQRUN", "DQRUN", "RERUN", "/(?u)a/a", "'(?a)(?u)a'", "-1.0e309", "1.0e-400", "<=", ">=", "1e23", "9007199254740993e0", "/a b/x" >>
+              "1e400", "1.0e16", "1.5e1", "/a{99999999999999999999}/", "'a{99999999999999999999}'", "aaaaaaaaaaaaaaaaaaaaaaaaaaaaaaaaaaaaaaaa", "HUGE", "SQRUN", "DQRUN", "RERUN", "/(?u)a/a", "'(?a)(?u)a'", "-1.0e309", "1.0e-400", "<=", ">=", "1e23", "9007199254740993e0", "/a b/x", "ARDIGIT1" >>
 PtrLex == << "/", "~", "0", "1", "a", "-", "#", "\\u0041", "\\", "\\ud800", " ", "EACUTE", "%41", "~0", "~1", "~2", "-1", "01", "9007199254740993", "\\x", "SUPER2", "HUGE" >>
 RelLex == << "0", "1", "2", "10", "+", "-", "#", "/", "a", "~", "01", " ", "\\", "+0", "EACUTE", "HUGE", "LIMIT4300" >>
 Lex == CASE Lang = "path" -> PathLex [] Lang = "pointer" -> PtrLex [] Lang = "relptr" -> RelLex [] OTHER -> <<>>
